@@ -440,6 +440,32 @@ def check(facts, rep, tier, cfg):
         rep.bad("C14.R3", "routing", cwhere, "; ".join(sorted(set(problems))) or "routing arms missing: %s" % sorted(seen_kinds))
     else:
         rep.ok("C14.R3", "routing", cwhere, "/ws -> gate; /health,/version iff !obfs; else fallback")
+    # ---- R5 the 101 answer is followed by a tunnel: the connection type the upgrade task expects is the one the server serves on
+    rep.rule("C14.R5", "a request that is answered 101 gets its tunnel: the I/O type the upgrade task downcasts hyper's `Upgraded` to is the type "
+                       "every `serve_connection_with_upgrades` call of the server (service = the tunnel service) is given - a connection served on "
+                       "another type is answered 101 and then dropped when the downcast fails")
+    crate_ = facts.crate("rusty_penguin_lib")
+    want_types, served = {}, []
+    for b in (crate_.bodies if crate_ else []):
+        for bi, t in b.calls():
+            c = callee(t)
+            if not c:
+                continue
+            if c["name"] == "downcast" and "hyper_util" in c["path"] and "/server/" in b.file and c.get("args"):
+                want_types[c["args"][0]] = "%s (%s)" % (loc_str(t["loc"]), b.path)
+            if c["name"] == "serve_connection_with_upgrades" and len(c.get("args") or []) >= 3 and c["args"][2].endswith("service::State"):
+                served.append((c["args"][1], "%s (%s)" % (loc_str(t["loc"]), b.path)))
+    if crate_ is not None and any("server::service" in b.path for b in crate_.bodies):
+        for ty, w in served:
+            if ty in want_types:
+                rep.ok("C14.R5", "served-type-is-downcast-type", w, "served on %s" % ty[:120])
+            else:
+                rep.bad("C14.R5", "served-type-is-downcast-type", w,
+                        "this connection is served on `%s`, but the task spawned after the 101 answer downcasts the upgraded connection to %s: for "
+                        "connections served here a fully valid, authenticated upgrade request is answered 101 and then no tunnel is started" % (
+                            ty[:160], sorted(x[:160] for x in want_types) or "nothing"))
+        rep.floor("C14.R5", "serve_connection_with_upgrades calls of the tunnel service", len(served), 1)
+        rep.floor("C14.R5", "downcasts of the upgraded connection", len(want_types), 1)
     rep.rule("C14.S7", "no new process-wide mutable state (static cell / lock / once-cell) in the files this property is anchored in")
     import whomay
     whomay.check_new_statics(facts, rep, "C14.S7", "C14")
